@@ -138,7 +138,7 @@ def run_tlc(module, cfg, env=None, workers=1, timeout=900, cwd=TLA, extra=None, 
     t0 = time.time()
     md = metadir or os.path.join(OUT, "tlc-md", "%s-%d-%s" % (os.path.basename(cfg), os.getpid(), uuid.uuid4().hex[:12]))
     os.makedirs(md, exist_ok=True)
-    cmd = ["java", "-XX:+UseParallelGC", "-Xss" + os.environ.get("VERIF_XSS", "512m"), "-Xmx" + xmx]
+    cmd = ["java", "-XX:+UseParallelGC", "-Xss" + os.environ.get("VERIF_XSS", "256m"), "-Xmx" + xmx]
     if deque:
         cmd.append("-Dtlc2.tool.queue.IStateQueue=StateDeque")
     cmd += ["-cp", JAR, "tlc2.TLC", "-workers", str(workers), "-metadir", md, "-config", cfg]
@@ -345,6 +345,11 @@ def validate(traces, checks, module="FlowTrace.tla", cfg="FlowTrace.cfg", timeou
             return tp, n, [], 0, 0
         env = dict(env0, TRACE=tp, DIAG="0")
         r = run_tlc(module, cfg, env=env, workers=1, timeout=timeout, xmx=xmx)
+        if r.error == "other":
+            # a JVM that could not start or was starved on an overloaded machine says nothing about the
+            # trace: one more attempt before giving up (a genuine evaluation error repeats)
+            time.sleep(2)
+            r = run_tlc(module, cfg, env=env, workers=1, timeout=timeout, xmx=xmx)
         states, gen = r.distinct, r.generated
         c = classify(r, tp)
         if c is None:
